@@ -530,6 +530,9 @@ impl RegWorld {
 }
 
 impl MmioHandler for RegWorld {
+    fn as_any(&mut self) -> &mut dyn std::any::Any {
+        self
+    }
     fn read(&mut self, addr: usize, width: u8) -> u64 {
         if let Some(m) = self.mmio.as_mut() {
             if addr >= m.base && addr < m.base + 0x10_0000 {
